@@ -67,6 +67,20 @@ def borda_reference(rankings, univ, unify, bucket_id):
 
 
 def check(case, ctx):
+    # generation dominates the cost: the drawn scheme, then each accepted family scaled by a factor taken from the case
+    check_one(case, ctx)
+    if case.get("batched", True):
+        k = gen.DYADIC_FACTORS[len(case["perm"]) % len(gen.DYADIC_FACTORS)]
+        for fam in ("unifying", "unifying_half", "induced", "induced_half", "pseudodistance"):
+            c = dict(case)
+            c["scheme"] = gen.scale(gen.PRESETS[fam], k)
+            c["family"] = "accepted" if fam != "pseudodistance" else "free"
+            c["bucket_id"] = not case["bucket_id"] if fam in ("unifying_half", "induced") else case["bucket_id"]
+            c["batched"] = False
+            check_one(c, ctx)
+
+
+def check_one(case, ctx):
     rankings, scheme = case["dataset"]["rankings"], case["scheme"]
     d, s = lib.mk_dataset(rankings), lib.mk_scheme(scheme)
     univ = oracle.universe(rankings)
@@ -119,4 +133,4 @@ def check(case, ctx):
 
 
 def subchecks():
-    return [HypSub("borda", cases, check, 8000, 100000)]
+    return [HypSub("borda", cases, check, 5000, 60000)]
